@@ -28,6 +28,9 @@ structure RenderCfg where
   /-- source fact: `writeCDATAChars` leaves the section to write CR (1.1: also NEL, LSEP, restricted characters) as a
   numeric reference -/
   cdataRefs : Bool := XalanModel.Generated.C08.cdataRefsLineEnds
+  /-- source fact: the bulk `write(chars, n)` of XalanOtherEncodingWriter (disable-output-escaping text, doctype strings)
+  consumes a surrogate pair as one character (it wrote one numeric reference per code unit) -/
+  otherBulkPairs : Bool := XalanModel.Generated.C08.otherBulkPairs
 deriving Repr, Inhabited
 
 /-- `writeDefaultEntity` -/
@@ -92,6 +95,24 @@ def cdataCharsEnc (r : RenderCfg) : Str → Bool → Str
     else (if outside then [] else s "]]>") ++ charRef c ++ cdataCharsEnc r rest true
   | [], outside => if outside then (if r.cdataRepaired then [] else s "<![CDATA[") else s "]]>"
 
+/-- the bulk `write(chars, n)` of the writers as `charactersRaw` uses it: the UTF-8/UTF-16 writers represent every
+character (units stay units here, the check decodes the bytes); XalanOtherEncodingWriter writes a numeric reference
+for a character the encoding cannot represent — for the scalar value of a surrogate pair when `pairs`, else (the
+unrepaired source) one reference per code unit -/
+def rawChars (pairs : Bool) (maxc : Nat) : Str → Str
+  | [] => []
+  | c :: rest =>
+    if c ≤ maxc || maxc ≥ 0x10FFFF then c :: rawChars pairs maxc rest
+    else
+      match rest with
+      | d :: rest' =>
+        if pairs && 0xD800 ≤ c && c ≤ 0xDBFF && 0xDC00 ≤ d && d ≤ 0xDFFF then
+          charRef (((c - 0xD800) <<< 10) + d - 0xDC00 + 0x10000) ++ rawChars pairs maxc rest'
+        else charRef c ++ rawChars pairs maxc (d :: rest')
+      | [] => charRef c
+termination_by us => us.length
+decreasing_by all_goals (simp_wf; try omega)
+
 def isXMLWhitespace (c : Nat) : Bool := c = 32 || c = 9 || c = 10 || c = 13
 
 def renderAttrs (r : RenderCfg) : List (Str × Str) → Str
@@ -113,7 +134,7 @@ def Tok.render (r : RenderCfg) : Tok → Str
   | .close name => s "</" ++ name ++ s ">"
   | .text t => t.flatMap (contentChar r)
   | .cdata t => s "<![CDATA[" ++ cdataCharsEnc r t false
-  | .raw t => t
+  | .raw t => rawChars r.otherBulkPairs r.maxChar t
   | .comment t => s "<!--" ++ t ++ s "-->"
   | .pi t d =>
     s "<?" ++ t ++ (match d with
@@ -144,6 +165,35 @@ def Ev.valid : Ev → Bool
   | .raw _ => true
   | .comment t => validUnits t
   | .pi _ d => validUnits d
+
+/-- strings written through the bulk path or as names: element and attribute names, PI targets, disable-output-escaping
+text must be XML characters too -/
+def Ev.bulkValid : Ev → Bool
+  | .startElement n attrs => validUnits n && attrs.all fun a => validUnits a.1
+  | .endElement n => validUnits n
+  | .raw t => validUnits t
+  | .pi t _ => validUnits t
+  | _ => true
+
+/-- the largest scalar value of a well-formed unit string is representable (names, PI targets and data, comments have
+no escape: an unrepresentable character is an error) -/
+def representable (maxc : Nat) : Str → Bool
+  | [] => true
+  | c :: rest =>
+    if 0xD800 ≤ c && c ≤ 0xDBFF then
+      match rest with
+      | _ :: rest' => maxc ≥ 0x10FFFF && representable maxc rest'
+      | [] => maxc ≥ 0x10FFFF
+    else c ≤ maxc && representable maxc rest
+termination_by us => us.length
+decreasing_by all_goals (simp_wf; try omega)
+
+def Ev.representable (maxc : Nat) : Ev → Bool
+  | .startElement n attrs => C08.representable maxc n && attrs.all fun a => C08.representable maxc a.1
+  | .endElement n => C08.representable maxc n
+  | .comment t => C08.representable maxc t
+  | .pi t d => C08.representable maxc t && C08.representable maxc d
+  | _ => true
 
 def renderAll (r : RenderCfg) (l : List Tok) : Str := l.flatMap (Tok.render r)
 
